@@ -1,1 +1,837 @@
+//! Crashed-process model → minidump bytes (via the repository's own `minidump-synth`) plus
+//! per-module Breakpad symbol files that are consistent with the modules' address ranges.
+//!
+//! This is a *workload* generator: it produces plausible and adversarial shapes; it does not
+//! produce a ground-truth call chain.
 
+use crate::symgen;
+use minidump_common::format as md;
+use minidump_synth::{
+    DumpString, Exception, HandleDescriptor, Memory, MemoryInfo, MiscStream, Module as SynthModule,
+    SimpleStream, SynthMinidump, SystemInfo, Thread, ThreadName, UnloadedModule,
+};
+use scroll::Pwrite;
+use serde_json::json;
+use simkit::rng::Xoshiro;
+use simkit::{ch, chance, probe, range};
+use test_assembler::{Endian, Section};
+
+#[derive(Clone, Copy, Debug, PartialEq, Eq)]
+pub enum Arch {
+    X86,
+    Amd64,
+    Arm,
+    Arm64,
+}
+
+impl Arch {
+    pub fn word(self) -> u64 {
+        match self {
+            Arch::X86 | Arch::Arm => 4,
+            _ => 8,
+        }
+    }
+    pub fn name(self) -> &'static str {
+        match self {
+            Arch::X86 => "x86",
+            Arch::Amd64 => "x86_64",
+            Arch::Arm => "arm",
+            Arch::Arm64 => "arm64",
+        }
+    }
+    fn processor_architecture(self) -> u16 {
+        (match self {
+            Arch::X86 => md::ProcessorArchitecture::PROCESSOR_ARCHITECTURE_INTEL,
+            Arch::Amd64 => md::ProcessorArchitecture::PROCESSOR_ARCHITECTURE_AMD64,
+            Arch::Arm => md::ProcessorArchitecture::PROCESSOR_ARCHITECTURE_ARM,
+            Arch::Arm64 => md::ProcessorArchitecture::PROCESSOR_ARCHITECTURE_ARM64,
+        }) as u16
+    }
+}
+
+#[derive(Clone, Copy, Debug, PartialEq, Eq)]
+pub enum OsKind {
+    Windows,
+    Linux,
+    MacOs,
+    Android,
+    Ios,
+}
+
+impl OsKind {
+    fn platform_id(self) -> u32 {
+        (match self {
+            OsKind::Windows => md::PlatformId::VER_PLATFORM_WIN32_NT,
+            OsKind::Linux => md::PlatformId::Linux,
+            OsKind::MacOs => md::PlatformId::MacOs,
+            OsKind::Android => md::PlatformId::Android,
+            OsKind::Ios => md::PlatformId::Ios,
+        }) as u32
+    }
+    pub fn name(self) -> &'static str {
+        match self {
+            OsKind::Windows => "windows",
+            OsKind::Linux => "Linux",
+            OsKind::MacOs => "mac",
+            OsKind::Android => "Android",
+            OsKind::Ios => "ios",
+        }
+    }
+    pub fn is_linuxish(self) -> bool {
+        matches!(self, OsKind::Linux | OsKind::Android)
+    }
+}
+
+#[derive(Clone, Debug)]
+pub struct ModSpec {
+    pub code_file: String,
+    pub base: u64,
+    pub size: u32,
+    pub debug_file: String,
+    pub guid: (u32, u16, u16, [u8; 8]),
+    pub age: u32,
+    pub has_cv: bool,
+    /// The symbol file served for this module (possibly corrupt / random / absent).
+    pub sym: Option<Vec<u8>>,
+    /// cache/server relative path `<debug leaf>/<ID>/<leaf>.sym` when `has_cv`.
+    pub rel: Option<String>,
+    pub sym_kind: &'static str,
+}
+
+impl ModSpec {
+    pub fn breakpad_id(&self) -> String {
+        format!(
+            "{:08X}{:04X}{:04X}{}{:x}",
+            self.guid.0,
+            self.guid.1,
+            self.guid.2,
+            self.guid.3.iter().map(|b| format!("{:02X}", b)).collect::<String>(),
+            self.age
+        )
+    }
+}
+
+#[derive(Clone, Debug)]
+pub struct ThreadSpec {
+    pub id: u32,
+    pub stack_base: u64,
+    pub stack_len: usize,
+    pub ip: u64,
+    pub sp: u64,
+    pub fp: u64,
+    pub lr: u64,
+    pub shape: &'static str,
+}
+
+#[derive(Clone, Debug)]
+pub struct WorldOpts {
+    pub max_threads: u32,
+    pub many_threads: bool,
+    /// Adversarial stack / register / CFI / stream shapes.
+    pub adversarial: bool,
+    /// Every module gets a CodeView record (needed by the HTTP supplier).
+    pub need_debug_ids: bool,
+    /// Allow corrupt / random symbol files.
+    pub hostile_symbols: bool,
+}
+
+pub struct World {
+    pub arch: Arch,
+    pub os: OsKind,
+    pub modules: Vec<ModSpec>,
+    pub threads: Vec<ThreadSpec>,
+    pub dump: Vec<u8>,
+    pub total_stack_bytes: u64,
+    pub has_proc_limits: bool,
+    pub describe: serde_json::Value,
+}
+
+fn module_base(arch: Arch, i: usize) -> u64 {
+    match arch.word() {
+        4 => 0x0040_0000 + i as u64 * 0x0010_0000,
+        _ => 0x7ff6_0000_0000 + i as u64 * 0x0100_0000,
+    }
+}
+
+fn stack_base(arch: Arch, t: usize) -> u64 {
+    match arch.word() {
+        4 => 0x0012_0000 + t as u64 * 0x0001_0000,
+        _ => 0x7ffd_1000_0000 + t as u64 * 0x0010_0000,
+    }
+}
+
+const LEAVES: [&str; 8] = ["app.exe", "xul.dll", "libfoo.so", "kernel32.dll", "libc.so.6", "XUL", "mod with space.dll", "libfoo.so"];
+const DIRS: [&str; 5] = ["C:\\Program Files\\App\\", "/usr/lib/", "", "D:\\other\\", "/data/app/lib/arm/"];
+
+/// CFI rules for one function.  `adversarial` adds no-progress, never-reads-memory and
+/// aliased-register programs.
+fn cfi_for(arch: Arch, adversarial: bool) -> (String, Option<String>) {
+    let weird = adversarial && chance("dump.cfi.weird", 1, 4);
+    match arch {
+        Arch::X86 => {
+            if weird {
+                match ch("dump.cfi.x86.weird", 5) {
+                    0 => (".cfa: $esp .ra: $eip".into(), None),
+                    1 => (".cfa: $esp 4 + .ra: $eip".into(), None),
+                    2 => (".cfa: $esp 4 - .ra: .cfa ^".into(), None),
+                    3 => (".cfa: $esp 4 + .ra: .cfa 4 - ^ $esp: 0".into(), None),
+                    _ => (".cfa: $ebp 8 + .ra: .cfa 4 - ^ $ebp: .cfa 8 - ^ $ebx: .cfa 4294967295 * ^".into(), None),
+                }
+            } else if chance("dump.cfi.x86.fp", 1, 2) {
+                (".cfa: $esp 4 + .ra: .cfa 4 - ^".into(), Some(".cfa: $ebp 8 + $ebp: .cfa 8 - ^".into()))
+            } else {
+                (format!(".cfa: $esp {} + .ra: .cfa 4 - ^", 4 + 4 * ch("dump.cfi.x86.k", 6)), None)
+            }
+        }
+        Arch::Amd64 => {
+            if weird {
+                match ch("dump.cfi.amd64.weird", 4) {
+                    0 => (".cfa: $rsp .ra: $rip".into(), None),
+                    1 => (".cfa: $rsp 8 + .ra: $rip".into(), None),
+                    2 => (".cfa: $rsp 8 - .ra: .cfa ^".into(), None),
+                    _ => (".cfa: $rsp 18446744073709551608 + .ra: .cfa 8 - ^".into(), None),
+                }
+            } else if chance("dump.cfi.amd64.fp", 1, 2) {
+                (".cfa: $rsp 8 + .ra: .cfa 8 - ^".into(), Some(".cfa: $rbp 16 + $rbp: .cfa 16 - ^".into()))
+            } else {
+                (format!(".cfa: $rsp {} + .ra: .cfa 8 - ^", 8 + 8 * ch("dump.cfi.amd64.k", 6)), None)
+            }
+        }
+        Arch::Arm64 => {
+            if weird {
+                match ch("dump.cfi.arm64.weird", 4) {
+                    0 => {
+                        probe("e4.cfi_alias_rules");
+                        (".cfa: sp 16 + .ra: .cfa 8 - ^ x29: .cfa 16 - ^ fp: .cfa 24 - ^".into(), None)
+                    }
+                    1 => (".cfa: sp 16 + .ra: pc".into(), None),
+                    2 => (".cfa: sp .ra: x30".into(), None),
+                    _ => {
+                        probe("e4.cfi_alias_rules");
+                        (".cfa: sp 32 + .ra: x30 lr: .cfa 8 - ^ x30: .cfa 16 - ^ x29: .cfa 32 - ^".into(), None)
+                    }
+                }
+            } else {
+                (format!(".cfa: sp {} + .ra: .cfa 8 - ^ x29: .cfa 16 - ^", 16 + 16 * ch("dump.cfi.arm64.k", 4)), None)
+            }
+        }
+        Arch::Arm => {
+            if weird {
+                match ch("dump.cfi.arm.weird", 3) {
+                    0 => {
+                        probe("e4.cfi_alias_rules");
+                        (".cfa: sp 8 + .ra: .cfa 4 - ^ r11: .cfa 8 - ^ fp: .cfa 12 - ^".into(), None)
+                    }
+                    1 => (".cfa: sp 8 + .ra: pc".into(), None),
+                    _ => {
+                        probe("e4.cfi_alias_rules");
+                        (".cfa: r13 8 + .ra: lr r14: .cfa 4 - ^ lr: .cfa 8 - ^".into(), None)
+                    }
+                }
+            } else {
+                (format!(".cfa: sp {} + .ra: .cfa 4 - ^ r11: .cfa 8 - ^", 8 + 8 * ch("dump.cfi.arm.k", 4)), None)
+            }
+        }
+    }
+}
+
+fn hostile_u32() -> String {
+    ["ffffffff", "80000000", "fffffffc", "7fffffff", "0"][ch("dump.win.hostile", 5) as usize].to_string()
+}
+
+/// A symbol file whose FUNC / CFI / WIN records cover the module's address range.
+fn module_symbols(arch: Arch, os: OsKind, m: &ModSpec, adversarial: bool) -> Vec<u8> {
+    let mut s = String::new();
+    let leaf = crate::common::leaf(&m.debug_file);
+    s.push_str(&format!("MODULE {} {} {} {}\n", os.name(), arch.name(), m.breakpad_id(), leaf));
+    s.push_str("INFO CODE_ID 5EEDC0DE\n");
+    s.push_str("FILE 0 src/main.c\nFILE 1 src/util.c\n");
+    if chance("dump.sym.origins", 1, 2) {
+        s.push_str("INLINE_ORIGIN 0 inlined_helper\nINLINE_ORIGIN 1 another_inlinee\n");
+    }
+    let stride: u64 = [0x100, 0x40, 0x400][ch("dump.sym.stride", 3) as usize];
+    let nfuncs = ((m.size as u64 / stride).min(96)).max(1);
+    let mut cfi = String::new();
+    let mut win = String::new();
+    for i in 0..nfuncs {
+        let addr = 0x1000 + i * stride;
+        if addr + stride > m.size as u64 {
+            break;
+        }
+        let size = stride - if i % 3 == 0 { 0 } else { 8 };
+        let params = if arch == Arch::X86 { (i % 4) * 4 } else { 0 };
+        s.push_str(&format!("FUNC {:x} {:x} {:x} fn_{}_{}\n", addr, size, params, leaf.replace(' ', "_"), i));
+        if i % 2 == 0 {
+            if i % 4 == 0 {
+                s.push_str(&format!("INLINE 0 {} 0 0 {:x} {:x}\n", 10 + i, addr + 4, 8));
+                s.push_str(&format!("INLINE 1 {} 1 1 {:x} {:x}\n", 20 + i, addr + 6, 4));
+            }
+            s.push_str(&format!("{:x} {:x} {} 0\n", addr, size / 2, 100 + i));
+            s.push_str(&format!("{:x} {:x} {} 1\n", addr + size / 2, size - size / 2, 200 + i));
+        }
+        // unwind info: most functions CFI, x86/windows some STACK WIN
+        if arch == Arch::X86 && os == OsKind::Windows && i % 3 == 1 {
+            let hostile = adversarial && chance("dump.win.hostile_sizes", 1, 4);
+            let (p, sr, l) = if hostile { (hostile_u32(), hostile_u32(), hostile_u32()) } else { (format!("{:x}", params), "4".to_string(), format!("{:x}", 8 * (i % 5))) };
+            if i % 2 == 0 {
+                let prog = String::from_utf8(symgen::win_program(adversarial)).unwrap_or_default();
+                win.push_str(&format!("STACK WIN 4 {:x} {:x} 3 1 {} {} {} 0 1 {}\n", addr, size, p, sr, l, prog));
+            } else {
+                win.push_str(&format!("STACK WIN 0 {:x} {:x} 3 1 {} {} {} 0 0 {}\n", addr, size, p, sr, l, i % 2));
+            }
+        } else if i % 5 != 4 {
+            let (init, delta) = cfi_for(arch, adversarial);
+            cfi.push_str(&format!("STACK CFI INIT {:x} {:x} {}\n", addr, size, init));
+            if let Some(d) = delta {
+                cfi.push_str(&format!("STACK CFI {:x} {}\n", addr + 4, d));
+            }
+        }
+    }
+    s.push_str(&format!("PUBLIC {:x} 0 public_tail_{}\n", 0x800u64.min(m.size as u64 / 2), leaf.replace(' ', "_")));
+    s.push_str(&win);
+    s.push_str(&cfi);
+    s.into_bytes()
+}
+
+struct Regs {
+    ip: u64,
+    sp: u64,
+    fp: u64,
+    lr: u64,
+}
+
+fn context_section(arch: Arch, r: &Regs, rng: &mut Xoshiro) -> Section {
+    let mut bytes: Vec<u8>;
+    match arch {
+        Arch::X86 => {
+            let mut c = md::CONTEXT_X86::default();
+            c.context_flags = 0x1003f;
+            c.eip = r.ip as u32;
+            c.esp = r.sp as u32;
+            c.ebp = r.fp as u32;
+            c.ebx = rng.next_u32();
+            c.esi = rng.next_u32();
+            c.edi = rng.next_u32();
+            bytes = vec![0u8; 716];
+            let n = bytes.pwrite_with(c, 0, scroll::LE).expect("ctx");
+            bytes.truncate(n);
+        }
+        Arch::Amd64 => {
+            let mut c = md::CONTEXT_AMD64::default();
+            c.context_flags = 0x10001f;
+            c.rip = r.ip;
+            c.rsp = r.sp;
+            c.rbp = r.fp;
+            c.rax = rng.next_u64();
+            c.rbx = rng.next_u64();
+            c.rcx = r.sp.wrapping_add(16);
+            c.rdx = rng.next_u64() >> 40;
+            c.rsi = rng.next_u64();
+            c.rdi = r.sp;
+            c.r12 = rng.next_u64();
+            bytes = vec![0u8; 1232];
+            let n = bytes.pwrite_with(c, 0, scroll::LE).expect("ctx");
+            bytes.truncate(n);
+        }
+        Arch::Arm => {
+            let mut c = md::CONTEXT_ARM::default();
+            c.context_flags = 0x40000000 | 0x7;
+            c.iregs[15] = r.ip as u32;
+            c.iregs[13] = r.sp as u32;
+            c.iregs[11] = r.fp as u32;
+            c.iregs[7] = r.fp as u32;
+            c.iregs[14] = r.lr as u32;
+            c.iregs[4] = rng.next_u32();
+            bytes = vec![0u8; 512];
+            let n = bytes.pwrite_with(c, 0, scroll::LE).expect("ctx");
+            bytes.truncate(n);
+        }
+        Arch::Arm64 => {
+            let mut c = md::CONTEXT_ARM64::default();
+            c.context_flags = 0x40001f;
+            c.pc = r.ip;
+            c.sp = r.sp;
+            c.iregs[29] = r.fp;
+            c.iregs[30] = r.lr;
+            c.iregs[19] = rng.next_u64();
+            bytes = vec![0u8; 1024];
+            let n = bytes.pwrite_with(c, 0, scroll::LE).expect("ctx");
+            bytes.truncate(n);
+        }
+    }
+    Section::with_endian(Endian::Little).append_bytes(&bytes)
+}
+
+fn put_word(stack: &mut [u8], off: usize, w: u64, val: u64) {
+    if w == 4 {
+        if off + 4 <= stack.len() {
+            stack[off..off + 4].copy_from_slice(&(val as u32).to_le_bytes());
+        }
+    } else if off + 8 <= stack.len() {
+        stack[off..off + 8].copy_from_slice(&val.to_le_bytes());
+    }
+}
+
+const PROC_LIMITS_FULL: &str = "Limit                     Soft Limit           Hard Limit           Units     \nMax cpu time              unlimited            unlimited            seconds   \nMax file size             unlimited            unlimited            bytes     \nMax stack size            8388608              unlimited            bytes     \nMax core file size        0                    unlimited            bytes     \nMax processes             111064               111064               processes \nMax open files            1048576              1048576              files     \nMax nice priority         0                    0                    \nMax realtime timeout      unlimited            unlimited            us        \n";
+
+pub fn gen_world(opts: &WorldOpts) -> World {
+    let arch = [Arch::Amd64, Arch::X86, Arch::Arm64, Arch::Arm][ch("dump.arch", 4) as usize];
+    let os = [OsKind::Windows, OsKind::Linux, OsKind::MacOs, OsKind::Android, OsKind::Ios][ch("dump.os", 5) as usize];
+    let w = arch.word();
+    let e = Endian::Little;
+    let adv = opts.adversarial;
+
+    // modules
+    let nmods = 1 + ch("dump.nmods", 6) as usize;
+    let mut modules: Vec<ModSpec> = Vec::new();
+    for i in 0..nmods {
+        let leaf = LEAVES[ch("dump.mod.leaf", LEAVES.len() as u32) as usize];
+        let dir = DIRS[ch("dump.mod.dir", DIRS.len() as u32) as usize];
+        let size = [0x8000u32, 0x2000, 0x20000, 0x1000][ch("dump.mod.size", 4) as usize];
+        let has_cv = opts.need_debug_ids || !chance("dump.mod.nocv", 1, 6);
+        let debug_leaf = if leaf.ends_with(".dll") || leaf.ends_with(".exe") { format!("{}.pdb", &leaf[..leaf.len() - 4]) } else { leaf.to_string() };
+        let mut m = ModSpec {
+            code_file: format!("{dir}{leaf}"),
+            base: module_base(arch, i),
+            size,
+            debug_file: if chance("dump.mod.debugdir", 1, 3) { format!("{dir}{debug_leaf}") } else { debug_leaf },
+            guid: (0x5A98_0000 + i as u32, 0x2872, 0x41C1, [0x83, 0x8E, 0xD9, 0x89, 0x14, 0xE9, 0xB7, i as u8]),
+            age: 1 + (i as u32 % 3),
+            has_cv,
+            sym: None,
+            rel: None,
+            sym_kind: "none",
+        };
+        if has_cv {
+            let l = crate::common::leaf(&m.debug_file).to_string();
+            let symname = if l.to_lowercase().ends_with(".pdb") { format!("{}.sym", &l[..l.len() - 4]) } else { format!("{l}.sym") };
+            m.rel = Some(format!("{}/{}/{}", l, m.breakpad_id(), symname));
+        }
+        // what the symbol supply has for it
+        let kind = ch("dump.sym.kind", 8);
+        match kind {
+            0..=4 => {
+                m.sym = Some(module_symbols(arch, os, &m, adv));
+                m.sym_kind = "consistent";
+            }
+            5 => {
+                m.sym = None;
+                m.sym_kind = "absent";
+            }
+            6 if opts.hostile_symbols => {
+                let mut b = module_symbols(arch, os, &m, adv);
+                symgen::corrupt(&mut b);
+                m.sym = Some(b);
+                m.sym_kind = "corrupted";
+            }
+            7 if opts.hostile_symbols => {
+                let mut o = symgen::SymOpts::default();
+                o.max_records = 30;
+                let doc = symgen::gen_doc(&o);
+                let (b, _) = symgen::render(&doc, symgen::draw_eol(), !chance("dump.sym.unterminated", 1, 8));
+                m.sym = Some(b);
+                m.sym_kind = "random grammar";
+            }
+            _ => {
+                m.sym = Some(module_symbols(arch, os, &m, adv));
+                m.sym_kind = "consistent";
+            }
+        }
+        modules.push(m);
+    }
+
+    // threads
+    let nthreads = if opts.many_threads && chance("dump.many_threads", 1, 12) {
+        probe("e4.many_threads");
+        31 + ch("dump.nthreads.many", 10) as usize
+    } else {
+        1 + ch("dump.nthreads", opts.max_threads.max(1)) as usize
+    };
+    if nthreads >= 2 {
+        probe("e4.multi_thread_world");
+    }
+    let mut synth = SynthMinidump::with_endian(e);
+    let mut sysinfo = SystemInfo::new(e).set_processor_architecture(arch.processor_architecture()).set_platform_id(os.platform_id());
+    sysinfo.major_version = 10;
+    sysinfo.minor_version = ch("dump.os.minor", 4);
+    sysinfo.build_number = 19041;
+    sysinfo.number_of_processors = 4;
+    synth = synth.add_system_info(sysinfo);
+
+    let mut threads: Vec<ThreadSpec> = Vec::new();
+    let mut total_stack_bytes = 0u64;
+    let use_mem64 = chance("dump.mem64", 1, 6);
+    let mut memories64: Vec<Memory> = Vec::new();
+    for t in 0..nthreads {
+        let seed = ch("dump.thread.seed", u32::MAX) as u64;
+        let mut rng = Xoshiro::new(seed);
+        let sbase = stack_base(arch, t);
+        let slen = [0x200usize, 0x80, 0x1000, 0x40, 0x2000, 0][ch("dump.stack.len", if adv { 6 } else { 5 }) as usize];
+        let mut stack = vec![0u8; slen];
+        let nwords = slen / w as usize;
+        let pick_ret = |rng: &mut Xoshiro| -> u64 {
+            let m = &modules[rng.below(modules.len() as u32) as usize];
+            m.base + 0x1000 + (rng.below((m.size.saturating_sub(0x1000)).max(1)) as u64 & !3) + 2
+        };
+        // random but plausible words
+        for i in 0..nwords {
+            let cat = rng.below(10);
+            let val = match cat {
+                0..=2 => pick_ret(&mut rng),
+                3 | 4 => sbase + ((i as u64 + 1 + rng.below(24) as u64) * w).min(slen as u64),
+                5 => rng.below(256) as u64,
+                6 => 0,
+                _ => rng.next_u64(),
+            };
+            put_word(&mut stack, i * w as usize, w, val);
+        }
+        // shape
+        let shape_n = if adv { 8 } else { 4 };
+        let shape = ch("dump.thread.shape", shape_n);
+        let mut r = Regs {
+            ip: pick_ret(&mut rng),
+            sp: sbase + (rng.below(4) as u64) * w,
+            fp: 0,
+            lr: pick_ret(&mut rng),
+        };
+        let shape_name: &'static str;
+        match shape {
+            0 | 1 => {
+                // explicit frame-pointer chain
+                shape_name = "frame-pointer chain";
+                let depth = 1 + rng.below(10) as usize;
+                let mut at = (2 + rng.below(4) as usize) * w as usize;
+                r.fp = sbase + at as u64;
+                for _ in 0..depth {
+                    let next = at + (2 + rng.below(6) as usize) * w as usize;
+                    if next + 2 * w as usize > slen {
+                        put_word(&mut stack, at, w, 0);
+                        put_word(&mut stack, at + w as usize, w, pick_ret(&mut rng));
+                        break;
+                    }
+                    put_word(&mut stack, at, w, sbase + next as u64);
+                    put_word(&mut stack, at + w as usize, w, pick_ret(&mut rng));
+                    at = next;
+                }
+            }
+            2 => {
+                shape_name = "random words (cfi / scan)";
+                r.fp = sbase + (rng.below(nwords.max(1) as u32) as u64) * w;
+            }
+            3 => {
+                shape_name = "ip outside modules";
+                r.ip = rng.next_u64() >> if w == 4 { 32 } else { 16 };
+                r.fp = sbase + 4 * w;
+            }
+            4 => {
+                shape_name = "cyclic frame pointer";
+                let at = 2 * w as usize;
+                r.fp = sbase + at as u64;
+                put_word(&mut stack, at, w, sbase + at as u64);
+                put_word(&mut stack, at + w as usize, w, pick_ret(&mut rng));
+            }
+            5 => {
+                shape_name = "descending frame pointer";
+                let at = (nwords / 2).max(3) * w as usize;
+                r.fp = sbase + at as u64;
+                put_word(&mut stack, at, w, sbase + at as u64 - 2 * w);
+                put_word(&mut stack, at + w as usize, w, pick_ret(&mut rng));
+            }
+            6 => {
+                shape_name = "sp extreme";
+                r.sp = [0u64, 4, 7, u64::MAX - 7, u64::MAX, sbase + slen as u64, sbase.wrapping_sub(8), if w == 4 { 0xffff_fffc } else { u64::MAX - 15 }][rng.below(8) as usize];
+                r.fp = [0u64, u64::MAX - 7, sbase, r.sp][rng.below(4) as usize];
+            }
+            _ => {
+                shape_name = "fp extreme";
+                r.fp = [u64::MAX - 3, u64::MAX - 7, u64::MAX - 15, sbase + slen as u64 - w, 1, if w == 4 { 0xffff_fff8 } else { u64::MAX - 8 }][rng.below(6) as usize];
+            }
+        }
+        let id = 0x1000 + t as u32;
+        let ctx = context_section(arch, &r, &mut rng);
+        let mem_addr = if adv && chance("dump.stack.top_of_space", 1, 24) {
+            // stack at the very top of the address space
+            let top = if w == 4 { 0x1_0000_0000u64 } else { 0 };
+            let a = top.wrapping_sub(slen as u64);
+            r.sp = a;
+            a
+        } else {
+            sbase
+        };
+        let memory = Memory::with_section(Section::with_endian(e).append_bytes(&stack), mem_addr);
+        if use_mem64 {
+            // Memory64 regions live in one trailing blob and cannot be cited: the thread's
+            // descriptor carries the address only (an empty range), as full dumps do.
+            let cite = Memory::with_section(Section::with_endian(e), mem_addr);
+            let thread = Thread::new(e, id, &cite, &ctx);
+            synth = synth.add_thread(thread).add(ctx).add(cite);
+            memories64.push(memory);
+        } else {
+            let thread = Thread::new(e, id, &memory, &ctx);
+            synth = synth.add_thread(thread).add(ctx);
+            synth = synth.add_memory(memory);
+        }
+        total_stack_bytes += slen as u64;
+        threads.push(ThreadSpec {
+            id,
+            stack_base: mem_addr,
+            stack_len: slen,
+            ip: r.ip,
+            sp: r.sp,
+            fp: r.fp,
+            lr: r.lr,
+            shape: shape_name,
+        });
+    }
+    for m in memories64 {
+        synth = synth.add_memory64(m);
+    }
+
+    // module list
+    for m in &modules {
+        let name = DumpString::new(&m.code_file, e);
+        let mut sm = SynthModule::new(e, m.base, m.size, &name, 0x5EED_C0DE, 0, None);
+        if m.has_cv {
+            let mut pdb = m.debug_file.clone().into_bytes();
+            pdb.push(0);
+            let cv = Section::with_endian(e)
+                .D32(md::CvSignature::Pdb70 as u32)
+                .D32(m.guid.0)
+                .D16(m.guid.1)
+                .D16(m.guid.2)
+                .append_bytes(&m.guid.3)
+                .D32(m.age)
+                .append_bytes(&pdb);
+            sm = sm.cv_record(&cv);
+            synth = synth.add_module(sm).add(name).add(cv);
+        } else {
+            synth = synth.add_module(sm).add(name);
+        }
+    }
+
+    // exception
+    let mut crashing = None;
+    if chance("dump.exception", 3, 4) {
+        let t = &threads[ch("dump.exception.thread", threads.len() as u32) as usize];
+        let mut ex = Exception::new(e);
+        ex.thread_id = if adv && chance("dump.exception.badtid", 1, 10) { 0xdead } else { t.id };
+        let (code, flags) = match os {
+            OsKind::Windows => ([0xC000_0005u32, 0x8000_0003, 0xC000_001D, 0xC000_0409, 0xE06D_7363][ch("dump.exc.win", 5) as usize], 0),
+            OsKind::Linux | OsKind::Android => ([11u32, 6, 4, 7, 8][ch("dump.exc.linux", 5) as usize], ch("dump.exc.linux.flags", 4)),
+            _ => ([1u32, 2, 3, 6, 10][ch("dump.exc.mac", 5) as usize], [1u32, 2, 13, 0x101][ch("dump.exc.mac.flags", 4) as usize]),
+        };
+        ex.exception_record.exception_code = code;
+        ex.exception_record.exception_flags = flags;
+        let addr = match ch("dump.exc.addr", 6) {
+            0 => 0,
+            1 => t.sp.wrapping_sub(8),
+            2 => t.ip,
+            3 => u64::MAX,
+            4 => 0x8000_0000_0000,
+            _ => 0x80400,
+        };
+        ex.exception_record.exception_address = addr;
+        ex.exception_record.number_parameters = ch("dump.exc.nparams", if adv { 16 } else { 3 });
+        ex.exception_record.exception_information[0] = ch("dump.exc.info0", 9) as u64;
+        ex.exception_record.exception_information[1] = addr;
+        ex.exception_record.exception_information[2] = 0xC000_0005;
+        synth = synth.add_exception(ex);
+        crashing = Some(t.id);
+        // code bytes at the crashing ip (for instruction analysis on amd64)
+        if chance("dump.exc.code_memory", 1, 2) {
+            const SNIPPETS: [&[u8]; 10] = [
+                &[0x50],                               // push rax
+                &[0xe8, 0x00, 0x01, 0x00, 0x00],       // call rel32
+                &[0x48, 0x89, 0x18],                   // mov [rax], rbx
+                &[0x48, 0x8b, 0x04, 0xc8],             // mov rax, [rax+rcx*8]
+                &[0xff, 0x10],                         // call [rax]
+                &[0xc3],                               // ret
+                &[0xa4],                               // movsb
+                &[0xf3, 0x48, 0xa5],                   // rep movsq
+                &[0x0f, 0x0b],                         // ud2
+                &[0x48, 0xff, 0x74, 0x24, 0x08],       // push [rsp+8]
+            ];
+            let mut code = SNIPPETS[ch("dump.exc.snippet", 10) as usize].to_vec();
+            code.extend_from_slice(&simkit::blob("dump.exc.codetail", 15));
+            if !use_mem64 {
+                synth = synth.add_memory(Memory::with_section(Section::with_endian(e).append_bytes(&code), t.ip));
+            }
+        }
+    }
+
+    // optional streams (swarm)
+    let streams = ch("dump.streams", 256);
+    let mut has_proc_limits = false;
+    if streams & 1 != 0 {
+        let n1 = DumpString::new("main thread", e);
+        let n2 = DumpString::new("worker \u{1f980}", e);
+        synth = synth.add_thread_name(ThreadName::new(e, threads[0].id, Some(&n1))).add(n1);
+        if threads.len() > 1 {
+            synth = synth.add_thread_name(ThreadName::new(e, threads[1].id, if adv && chance("dump.tname.bad", 1, 4) { None } else { Some(&n2) })).add(n2);
+        }
+    }
+    if streams & 2 != 0 {
+        // unloaded modules, some overlapping live frames' addresses
+        let n = DumpString::new("unloaded.dll", e);
+        let n2 = DumpString::new("unloaded.dll", e);
+        let t0 = &threads[0];
+        synth = synth
+            .add_unloaded_module(UnloadedModule::new(e, t0.ip & !0xfff, 0x4000, &n, 0x1234, 0))
+            .add(n)
+            .add_unloaded_module(UnloadedModule::new(e, (t0.ip & !0xfff).wrapping_sub(0x1000), 0x3000, &n2, 0x1235, 0))
+            .add(n2);
+    }
+    if streams & 4 != 0 {
+        let mut misc = MiscStream::new(e);
+        misc.process_id = Some(4242);
+        synth = synth.add_stream(misc);
+    }
+    if streams & 8 != 0 {
+        // memory info list, with extreme ranges when adversarial
+        let regions: [(u64, u64, u32); 5] = [
+            (0x80000, 0x80000, 0x04),
+            (t_sp(&threads[0]) & !0xfff, 0x1000, 0x104),
+            (u64::MAX - 0xfff, 0x1000, 0x01),
+            (0x7000_0000_0000, u64::MAX, 0x20),
+            (0, 0x1000, 0x01),
+        ];
+        for (i, (base, size, prot)) in regions.iter().enumerate() {
+            if i >= 2 && !(adv && chance("dump.meminfo.extreme", 1, 2)) {
+                continue;
+            }
+            synth = synth.add_memory_info(MemoryInfo::new(e, *base, *base, *prot, *size, 0x1000, *prot, 0x20000));
+        }
+    }
+    if streams & 16 != 0 && os == OsKind::Windows {
+        probe("e4.handle_stream");
+        let tn = DumpString::new("File", e);
+        let on = DumpString::new("\\Device\\HarddiskVolume1\\x", e);
+        synth = synth
+            .add_handle_descriptor(HandleDescriptor::new(e, 4, Some(&tn), Some(&on), 0, 0x12019f, 2, 65))
+            .add(tn)
+            .add(on)
+            .add_handle_descriptor(HandleDescriptor::new(e, 8, None, None, 0, 0, 0, 0));
+    }
+    if os.is_linuxish() {
+        if streams & 32 != 0 {
+            has_proc_limits = true;
+            probe("e4.proc_limits");
+            let mut text = PROC_LIMITS_FULL.to_string();
+            if adv {
+                match ch("dump.limits.shape", 6) {
+                    0 => {}
+                    1 => text.push_str("Max\n"),
+                    2 => text.push_str("Max weird\n"),
+                    3 => text = "Limit Soft Hard Units\nx\n\n  \nMax open files   \n".to_string(),
+                    4 => text.push_str("Max open files            notanumber              1048576              files     \n"),
+                    _ => text = text.replace("  ", " "),
+                }
+            }
+            synth = synth.set_linux_proc_limits(text.as_bytes());
+        }
+        if streams & 64 != 0 {
+            synth = synth
+                .set_linux_lsb_release(b"DISTRIB_ID=\"Ubuntu\"\nDISTRIB_RELEASE=22.04\nDISTRIB_CODENAME=jammy\nDISTRIB_DESCRIPTION=\"Ubuntu 22.04\"\n")
+                .set_linux_cpu_info(b"processor : 0\nmicrocode : 0x1e34a6789\nmodel name : Sim CPU\n\nprocessor : 1\n")
+                .set_linux_proc_status(b"Name:\tapp\nPid:\t3747\nUid:\t1000\n")
+                .set_linux_environ(b"HOME=/home/u\0PATH=/bin\0");
+        }
+        if streams & 128 != 0 {
+            let mut maps = String::new();
+            for m in &modules {
+                maps.push_str(&format!("{:x}-{:x} r-xp 00000000 08:01 123 {}\n", m.base, m.base + m.size as u64, m.code_file));
+            }
+            maps.push_str(&format!("{:x}-{:x} rw-p 00000000 00:00 0 [stack]\n", threads[0].stack_base, threads[0].stack_base.wrapping_add(threads[0].stack_len as u64)));
+            if adv {
+                maps.push_str("garbage line\nffffffffffffffff-0 ---p 0 0:0 0\n");
+            }
+            synth = synth.set_linux_maps(maps.as_bytes());
+        }
+    }
+    if chance("dump.breakpad_info", 1, 4) {
+        // BreakpadInfo: validity, dump_thread_id, requesting_thread_id
+        let sec = Section::with_endian(e).D32(3).D32(threads.last().unwrap().id).D32(threads[0].id);
+        synth = synth.add_stream(SimpleStream {
+            stream_type: md::MINIDUMP_STREAM_TYPE::BreakpadInfoStream as u32,
+            section: sec,
+        });
+    }
+    if adv && chance("dump.soft_errors", 1, 8) {
+        synth = synth.set_soft_errors("[{\"InitErrors\": [{\"StopProcessFailed\": {\"Stop\": \"EPERM\"}}]}]");
+    }
+
+    let dump = synth.finish().expect("synth dump");
+    let describe = json!({
+        "arch": arch.name(),
+        "os": os.name(),
+        "modules": modules.iter().map(|m| json!({"code_file": m.code_file, "base": format!("{:#x}", m.base), "size": m.size, "debug_file": m.debug_file, "cv": m.has_cv, "symbols": m.sym_kind, "sym_len": m.sym.as_ref().map(|s| s.len())})).collect::<Vec<_>>(),
+        "threads": threads.iter().take(8).map(|t| json!({"id": t.id, "stack_len": t.stack_len, "shape": t.shape, "ip": format!("{:#x}", t.ip), "sp": format!("{:#x}", t.sp), "fp": format!("{:#x}", t.fp)})).collect::<Vec<_>>(),
+        "thread_count": threads.len(),
+        "crashing_thread": crashing,
+        "streams_mask": streams,
+        "memory64": use_mem64,
+        "dump_len": dump.len(),
+    });
+    World {
+        arch,
+        os,
+        modules,
+        threads,
+        dump,
+        total_stack_bytes,
+        has_proc_limits,
+        describe,
+    }
+}
+
+fn t_sp(t: &ThreadSpec) -> u64 {
+    t.sp
+}
+
+/// Storage faults on the serialised dump (what a crashed writer or a bad disk leaves behind).
+pub fn storage_fault(dump: &mut Vec<u8>) -> &'static str {
+    if dump.is_empty() {
+        return "none";
+    }
+    match ch("storage.kind", 5) {
+        0 => {
+            let k = range("storage.torn_at", 0, dump.len() as u64) as usize;
+            dump.truncate(k);
+            "torn tail"
+        }
+        1 => {
+            let bs = [512usize, 4096][ch("storage.block", 2) as usize];
+            let nb = dump.len().div_ceil(bs);
+            let b = ch("storage.lost_block", nb as u32) as usize;
+            let end = ((b + 1) * bs).min(dump.len());
+            for x in &mut dump[b * bs..end] {
+                *x = 0;
+            }
+            "lost sector"
+        }
+        2 => {
+            let bs = [512usize, 4096][ch("storage.block", 2) as usize];
+            let nb = dump.len().div_ceil(bs);
+            let b = ch("storage.stale_block", nb as u32) as usize;
+            let from = ch("storage.stale_from", nb as u32) as usize;
+            let end = ((b + 1) * bs).min(dump.len());
+            let src: Vec<u8> = (b * bs..end).map(|i| dump[(from * bs + (i - b * bs)) % dump.len()]).collect();
+            dump[b * bs..end].copy_from_slice(&src);
+            "stale sector"
+        }
+        3 => {
+            let n = 1 + ch("storage.flips", 3);
+            for _ in 0..n {
+                let at = range("storage.flip_at", 0, dump.len() as u64 - 1) as usize;
+                dump[at] ^= 1 << ch("storage.flip_bit", 8);
+            }
+            "bit rot"
+        }
+        _ => {
+            // one bit in the header / directory area
+            let at = range("storage.hdr_flip_at", 0, (dump.len().min(4096) - 1) as u64) as usize;
+            dump[at] ^= 1 << ch("storage.flip_bit", 8);
+            "header bit flip"
+        }
+    }
+}
